@@ -177,6 +177,9 @@ func runProperty(prop, tier string, timeoutS int) *checkResult {
 	t2 := time.Now()
 	dir := scratchDir("check-" + prop)
 	dischargeAll(res.Obls, dir, timeoutS, tier == "thorough", 16)
+	if os.Getenv("GOVC_KEEP") == "" {
+		os.RemoveAll(dir) // failing obligations keep their query under replays/
+	}
 	res.SolveS = time.Since(t2).Seconds()
 	for a := range assume {
 		res.Assumptions = append(res.Assumptions, a)
@@ -235,7 +238,7 @@ func cmdCheck(args []string) {
 	}
 	prop := pos[0]
 	if *timeout == 0 {
-		*timeout = 10
+		*timeout = 20 // (plus one retry at three times this for undecided goals: margin for a loaded machine)
 		if *tier == "thorough" {
 			*timeout = 60
 		}
